@@ -3,6 +3,7 @@
  *        raw HTML by documented design (htmlheader, xhtmlheader) are not part of the units;
  *  (C20) the wrapper does not draw from the obfuscation generator: every call of the escaper is made with obfuscate == false and
  *        ran_num_next is not called (the body's e-mail obfuscation must not depend on the metadata).
+ *  (C11) a key that is not one of the documented control keys is carried into the head (-DHEAD_EXPECT_EMIT units).
  * One metadata record per unit (-DHEAD_KEY: a concrete key, so uthash and the strcmp chain run concretely); value of any content. */
 #include "verif.h"
 #include <stdio.h>
@@ -32,7 +33,8 @@ void d_string_append_printf(DString * d, const char * fmt, ...) {
 	}
 	va_end(ap);
 }
-void mmd_print_string_html(DString * out, const char * str, bool obfuscate, bool line_breaks) { ASSERT(!obfuscate, "C20: the document wrapper does not obfuscate (it must not draw from the generator the body's e-mail obfuscation uses)"); }
+static bool g_val_emitted;
+void mmd_print_string_html(DString * out, const char * str, bool obfuscate, bool line_breaks) { if (str == g_val) { g_val_emitted = true; } ASSERT(!obfuscate, "C20: the document wrapper does not obfuscate (it must not draw from the generator the body's e-mail obfuscation uses)"); }
 void mmd_print_char_html(DString * out, char c, bool obfuscate, bool line_breaks) { ASSERT(!obfuscate, "C20: the document wrapper does not obfuscate"); }
 long ran_num_next(void) { ASSERT(0, "C20: the document wrapper does not draw from the obfuscation generator"); return 0; }
 asset * extract_asset(scratch_pad * scratch, char * url) { asset * a = malloc(sizeof(asset)); a->asset_path = malloc(2); a->asset_path[0] = 'u'; a->asset_path[1] = 0; return a; }
@@ -48,6 +50,10 @@ void h_head(void) {
 	HASH_ADD_KEYPTR(hh, scratch->meta_hash, m->key, sizeof(key) - 1, m);
 	DString * out = ALLOC(sizeof(DString)); out->str = ALLOC(8); out->str[0] = 0; out->currentStringLength = 0; out->currentStringBufferSize = 8; g_out = out;
 	char * source = ALLOC(4); source[3] = 0;
+	g_val_emitted = false;
 	mmd_start_complete_html(out, source, scratch);
+#ifdef HEAD_EXPECT_EMIT
+	ASSERT(g_val_emitted, "C11: a metadata key that is not one of the documented control keys is carried into the complete document (its value is emitted, through the escaper)");
+#endif
 	REACH();
 }
